@@ -3,6 +3,9 @@ import ScVerif.C06.Opts
 import ScVerif.C06.Heap
 import ScVerif.C06.Coll
 import ScVerif.C06.ValuePull
+import ScVerif.C06.Sched
+import ScVerif.C06.VSched
+import ScVerif.C06.Lossy
 /-! Driver handler for C06: the stateful handler shared with C05 (message-tree model; the C06
 operations there are `rvalidate`, `rfilter`, `project`), extended with the read-option operations:
 
@@ -32,7 +35,22 @@ operations there are `rvalidate`, `rfilter`, `project`), extended with the read-
 
   vpull <ty> <opts> <eq> <cur|nil> <time> (<time> <msg|nil>)*  -> panic | `-` | time|msg|S.L. ...
       Value.Pull with the option list on a value holding <cur> (changed at <time>), then the raw
-      published changes. -/
+      published changes.
+
+  csched <ty> <opts> <mode> <eq> <npre> <step>*
+      the same reads (<mode> list | pull | pullid=<id>) in a schedule of write halves on an initially empty
+      collection whose clock starts at 0 (Sched.lean): <step> = `a <id> <msg>` Add up to bus.Send,
+      `u <id> <msg>` Update up to bus.Send, `p <k>` bus.Send of the k-th parked writer, `d <id>` Delete;
+      the read happens / the subscription opens after the first <npre> steps.
+
+  vsched <ty> <opts> <eq> <init|nil> <npre> <step>*   -> panic | `-` | time|msg|S.L. ...
+      Value.Pull in a schedule of Set halves on a value holding <init> (change time 0): <step> =
+      `s <msg> <time>` Set up to bus.Send, `p <k>` bus.Send of the k-th parked writer (VSched.lean).
+
+  lmerge <change> <change>      -> drop | id|time|TYPE|old|new|S.L.      (mergeChanges; <change> as in cread)
+  lstage <sched> <change>*      -> `-` | one entry per hand-over: `_` (queue empty) or the change
+      the goroutine of mergeCollectionExcess (Lossy.lean: lossyT) under the schedule <sched> of `t` (take
+      the next published change) / `h` (hand the front of the queue over); `.`: the empty schedule. -/
 namespace ScVerif.C06
 open ScVerif.C05 ScVerif.C05.Codec
 
@@ -165,6 +183,63 @@ def cread (S : Schema) (ty : Nat) (opts : List ReadOpt) (mode : String) (eq : Eq
       | none => "panic"
     else "!bad-op"
 
+def parseSteps : List String → Option (List Step)
+  | [] => some []
+  | [_] => none
+  | k :: x :: rest =>
+    if k = "p" then
+      match x.toNat?, parseSteps rest with
+      | some n, some ss => some (.publish n :: ss)
+      | _, _ => none
+    else if k = "d" then (parseSteps rest).map (Step.delete x :: ·)
+    else
+      match rest with
+      | [] => none
+      | m :: rest' =>
+        match parseMessage m, parseSteps rest' with
+        | some fs, some ss =>
+          if k = "a" then some (.add x fs :: ss) else if k = "u" then some (.update x fs :: ss) else none
+        | _, _ => none
+
+def parseVSteps : List String → Option (List VStep)
+  | [] => some []
+  | [_] => none
+  | k :: x :: rest =>
+    if k = "p" then
+      match x.toNat?, parseVSteps rest with
+      | some n, some ss => some (.publish n :: ss)
+      | _, _ => none
+    else if k = "s" then
+      match rest with
+      | [] => none
+      | t :: rest' =>
+        match parseMessage x, t.toInt?, parseVSteps rest' with
+        | some fs, some t, some ss => some (.set fs t :: ss)
+        | _, _, _ => none
+    else none
+
+def parseSched (s : String) : Option (List Bool) :=
+  if s = "." then some []
+  else s.toList.mapM (fun c => if c = 'h' then some true else if c = 't' then some false else none)
+
+def csched (S : Schema) (ty : Nat) (opts : List ReadOpt) (mode : String) (eq : Equiv) (pre post : List Step) : String :=
+  match computeReadConfig S ty opts with
+  | none => "panic"
+  | some rr =>
+    if mode = "list" then
+      match listAfter namedPred rr {} pre with
+      | some ms => showList (ms.map showMsg)
+      | none => "panic"
+    else if mode = "pull" then
+      match session namedPred rr eq {} pre post with
+      | some cs => showList (cs.map showChange)
+      | none => "panic"
+    else if mode.startsWith "pullid=" then
+      match sessionID namedPred rr eq {} pre post (mode.drop 7).toString with
+      | some vs => showList (vs.map showValueChange)
+      | none => "panic"
+    else "!bad-op"
+
 def handleS (S : Schema) (toks : List String) : Schema × String :=
   let bad := (S, "!bad-op")
   match toks with
@@ -188,6 +263,37 @@ def handleS (S : Schema) (toks : List String) : Schema × String :=
         | none => bad
       | none => bad
     | _, _, _ => bad
+  | "csched" :: ty :: o :: mode :: eq :: n :: rest =>
+    match ty.toNat?, parseOpts o, n.toNat?, parseSteps rest with
+    | some ty, some opts, some n, some steps =>
+      if eq = "-" then (S, csched S ty opts mode none (steps.take n) (steps.drop n))
+      else if eq = "E" then (S, csched S ty opts mode (some (fun a b => a == b)) (steps.take n) (steps.drop n))
+      else bad
+    | _, _, _, _ => bad
+  | "vsched" :: ty :: o :: eq :: init :: n :: rest =>
+    match ty.toNat?, parseOpts o, parseOptMsg init, n.toNat?, parseVSteps rest with
+    | some ty, some opts, some init, some n, some steps =>
+      match computeReadConfig S ty opts with
+      | none => (S, "panic")
+      | some rr =>
+        let e : Option Equiv :=
+          if eq = "-" then some none else if eq = "E" then some (some (fun a b => a == b)) else none
+        match e with
+        | none => bad
+        | some e =>
+          match vsession rr e { value := init } (steps.take n) (steps.drop n) with
+          | some vs => (S, showList (vs.map showValueChange))
+          | none => (S, "panic")
+    | _, _, _, _, _ => bad
+  | "lmerge" :: rest =>
+    match parseChanges rest with
+    | some [a, b] => (S, match mergeChanges a b with | none => "drop" | some n => showChange n)
+    | _ => bad
+  | "lstage" :: s :: rest =>
+    match parseSched s, parseChanges rest with
+    | some sched, some evs =>
+      (S, showList ((lossyT sched [] evs).map (fun o => match o with | none => "_" | some c => showChange c)))
+    | _, _ => bad
   | "vpull" :: ty :: o :: eq :: cur :: t :: rest =>
     match ty.toNat?, parseOpts o, parseOptMsg cur, t.toInt?, parseValueChanges rest with
     | some ty, some opts, some cur, some t, some evs =>
